@@ -102,7 +102,7 @@ fn check_break_assignment(context: &CheckerContext) -> GenericResult<()> {
                             policy.as_ref().cloned().unwrap_or(VehicleOptionalBreakPolicy::SkipIfNoIntersection);
 
                         match policy {
-                            VehicleOptionalBreakPolicy::SkipIfNoIntersection => break_tw.start < arrival,
+                            VehicleOptionalBreakPolicy::SkipIfNoIntersection => break_tw.intersects(&tour_tw),
                             VehicleOptionalBreakPolicy::SkipIfArrivalBeforeEnd => arrival > break_tw.end,
                         }
                     }
